@@ -803,7 +803,9 @@ const char *UtilContext::get_hex(const char *token, uint32_t *num)
 
   *num = n;
 
-  if (token[s] != '-') s++;
+  // Skip the character that ended the number, but never the end of the
+  // string.
+  if (token[s] != '-' && token[s] != 0) { s++; }
 
   return token + s;
 }
